@@ -394,12 +394,17 @@ def gen_dir_cases(rng, W, seeds, n):
         stepname, filebase = rng.choice([("build", "build")] * 4 + [("a b", "a b"), ("é", "é"), ("st*p", "stop"), ("st*p", "st.x.p"), ("[abc", "[abc"),
                                         ("x/../y", "y"), ("build.00000000", "build.00000000"), ("[b][u][i][l][d]", "build"),
                                         ("b?ild", "béild"), ("*", "anything"), ("bu*", "build.x.y")])
-        layout = scen.mk_layout(W, ["ed4"], [scen.mk_step(stepname, rng.choice([0, 1, 2]), [W.kid("ed4")], [], [["ALLOW", "*"]], [])],
-                                [], None, "")
+        # the step's functionaries need not all be in the key table (never listed, or filed under a foreign id and dropped on reading)
+        tm = rng.choice(["ok", "ok", "absent", "misfiled", "one_of_two"])
+        auth = [W.kid("ed4")] + ([W.kid("ed5")] if tm == "one_of_two" or rng.random() < 0.3 else [])
+        table = {"ok": {W.kid("ed4"): W.pub("ed4")}, "absent": {}, "misfiled": {"ab" * 32: W.pub("ed4")},
+                 "one_of_two": {W.kid("ed4"): W.pub("ed4")}}[tm]
+        layout = scen.mk_layout(W, [], [scen.mk_step(stepname, rng.choice([0, 1, 2]), auth, [], [["ALLOW", "*"]], [])],
+                                [], None, "", keys=table)
         files = {}
         for j in range(rng.choice([1, 2, 3])):
             # the key-id part of the file name is matched by ???????? (8 *characters*, not bytes)
-            pfx = rng.choice([W.pfx("ed4"), "00000000", "????????", "éééééééé", "abcdefgh", "€€€€€€€€", "0123456é", "é1234567", "😀😀😀😀😀😀😀😀",
+            pfx = rng.choice([W.pfx("ed4"), W.pfx("ed4"), W.pfx("ed5"), "00000000", "????????", "éééééééé", "abcdefgh", "€€€€€€€€", "0123456é", "é1234567", "😀😀😀😀😀😀😀😀",
                               "ab", "abcdefghi", "........", "a.b.c.d."])
             fname = f"{filebase}.{pfx}.link"
             if "/" in fname:
@@ -408,7 +413,10 @@ def gen_dir_cases(rng, W, seeds, n):
             k = rng.random()
             if k < 0.35:
                 if w["signatures"]:
-                    w["signatures"][0]["keyid"] = rng.choice(NONASCII_IDS + [W.kid("ed4"), pfx + "0" * 56])
+                    w["signatures"][0]["keyid"] = rng.choice(NONASCII_IDS + [W.kid("ed4"), pfx + "0" * 56]) if rng.random() < 0.5 else \
+                        (W.kid("ed5") if pfx == W.pfx("ed5") else W.kid("ed4"))
+                else:
+                    w["signatures"] = [{"keyid": W.kid("ed5") if pfx == W.pfx("ed5") else W.kid("ed4"), "sig": "00"}]
                 files[fname] = json.dumps(w, ensure_ascii=False)
             elif k < 0.6:
                 files[fname] = json.dumps(adversarial_json(rng, w), ensure_ascii=False)
